@@ -771,6 +771,37 @@ protected:
                 {
                     outputNewline();
                 }
+                else if (XalanUnicode::charCR == theChar ||
+                         (XMLVersion == XML_VERSION_1_1 &&
+                          (XalanUnicode::charLSEP == theChar ||
+                           theChar == 0x85)))
+                {
+                    // A parser turns these into a line feed, unless they
+                    // are written as character references, and there are
+                    // none in a CDATA section.  So the character goes
+                    // between two sections...
+                    if (outsideCDATA == false)
+                    {
+                        m_writer.write(
+                            m_constants.s_cdataCloseString,
+                            m_constants.s_cdataCloseStringLength);
+                    }
+
+                    writeNumericCharacterReference(theChar);
+
+                    if (i + 1 < length)
+                    {
+                        m_writer.write(
+                            m_constants.s_cdataOpenString,
+                            m_constants.s_cdataOpenStringLength);
+
+                        outsideCDATA = false;
+                    }
+                    else
+                    {
+                        outsideCDATA = true;
+                    }
+                }
                 else if(m_charPredicate.isCharRefForbidden(theChar))
                 {
                      throwInvalidXMLCharacterException(
